@@ -845,6 +845,11 @@ func Compare(refTree *Tree, compTrees <-chan Trees, tips, comparetreeidentical b
 									common++
 								}
 							}
+							// Identical also requires that the reference has no branch
+							// that the compared tree lacks
+							if sametree && total != common {
+								sametree = false
+							}
 						}
 					}
 				}
